@@ -44,11 +44,26 @@ fn apply_fixes(src: &str, fixes: &[Autofix]) -> String {
     // them from the end without invalidating earlier offsets.
     fixes.sort_by_key(|b| std::cmp::Reverse(b.position.start_offset));
 
+    // Each check computes its fixes on its own, so two fixes can
+    // overlap or be identical, and offsets are positions in `src`. A
+    // fix that overlaps one we have already applied no longer
+    // describes `result`, so skip it: it is offered again on the next
+    // run. Also skip a fix that is not a valid range of `src`.
     let mut result = src.to_owned();
+    let mut applied_from = src.len();
     for fix in fixes {
         let start = fix.position.start_offset;
         let end = fix.position.end_offset;
+        if start > end
+            || end > applied_from
+            || !src.is_char_boundary(start)
+            || !src.is_char_boundary(end)
+        {
+            continue;
+        }
+
         result = format!("{}{}{}", &result[..start], fix.new_text, &result[end..]);
+        applied_from = start;
     }
     result
 }
